@@ -533,6 +533,8 @@ func GenScript(t *rapid.T, prop, profile string, o GenOpts) *Script {
 		placeInitial(t, o, &s.World)
 	}
 	if o.Twins {
+		// legal extremes of the int32 priority range (user classes go up to 10^9, negative values are allowed)
+		s.World.PriorityClasses = append(s.World.PriorityClasses, PriorityClassSpec{"huge", 1000000000}, PriorityClassSpec{"deep", -1500000000})
 		n := len(s.World.Workloads)
 		for i := 0; i < n && len(s.World.Workloads) < 14; i++ {
 			w := s.World.Workloads[i]
@@ -558,7 +560,10 @@ func GenScript(t *rapid.T, prop, profile string, o GenOpts) *Script {
 				if w.Preemptibility == "" {
 					tw.Preemptibility, s.World.Workloads[i].Preemptibility = "preemptible", "preemptible"
 				}
-				tw.PriorityClass = pick(t, "twinpc", "train", "build", "inference", "low")
+				tw.PriorityClass = pick(t, "twinpc", "train", "build", "inference", "low", "huge", "deep")
+				if chance(t, "twinextreme", 25) {
+					s.World.Workloads[i].PriorityClass = pick(t, "origpc", "huge", "deep")
+				}
 			} else {
 				tw.AgeSec = int64(rapid.IntRange(1, 5000).Draw(t, "twinage"))
 			}
